@@ -287,14 +287,19 @@ def check_reinit(ctx, pool, rule):
         if isinstance(st, ast.FunctionDef):
             break
         prologue.append(st)
-    reinit = {t.attr for st in prologue if isinstance(st, ast.Assign) for t in st.targets if is_self_attr(t)}
+    def resets(stmts):
+        # `self.x = ...` or the statement `self.x.clear()`: either way nothing of the previous run is left in x
+        return {t.attr for st in stmts if isinstance(st, ast.Assign) for t in st.targets if is_self_attr(t)} | \
+               {st.value.func.value.attr for st in stmts if isinstance(st, ast.Expr) and isinstance(st.value, ast.Call) and last_attr(st.value) == 'clear'
+                and not st.value.args and isinstance(st.value.func, ast.Attribute) and is_self_attr(st.value.func.value)}
+    reinit = resets(prologue)
     # ... including what a helper method called unconditionally from the prologue assigns at its own top level
     for st in prologue:
         if isinstance(st, ast.Expr) and isinstance(st.value, ast.Call) and receiver(st.value) == 'self':
             r = ctx.prog.resolve_call(st.value, run, pool)
             if r and r[0] == 'func':
                 ctx.used(r[1])
-                reinit |= {t.attr for x in r[1].node.body if isinstance(x, ast.Assign) for t in x.targets if is_self_attr(t)}
+                reinit |= resets(r[1].node.body)
     exceptions = {'_closed'}
     for attr, f in sorted(mutated.items()):
         if attr in exceptions:
